@@ -181,6 +181,38 @@ fn one_record(rec: &Value, props: &BTreeSet<String>, long: &mut MoveGenerator, a
         }
     }
 
+    // ---- C04 (queries): generation, annotation, notation, check test, counting and a shallow search must
+    // leave the caller's board exactly as they found it -- on EVERY oracle state (pinned en passant,
+    // castling through check, promotions in check ... are where a filter might "tidy up" the board)
+    if has("C04") {
+        let queries: [(&str, Box<dyn Fn(&mut chess::board::Board, &mut MoveGenerator)>); 5] = [
+            ("generate_moves", Box::new(move |b, g| { g.generate_moves(b, side); })),
+            ("generate_moves_and_lazily_update_chess_move_effects", Box::new(move |b, g| { g.generate_moves_and_lazily_update_chess_move_effects(b, side); })),
+            ("enumerate_candidate_moves_with_algebraic_notation", Box::new(move |b, g| { enumerate_candidate_moves_with_algebraic_notation(b, side, g); })),
+            ("player_is_in_check + game_ending", Box::new(move |b, g| { evaluate::player_is_in_check(b, g, side); evaluate::game_ending(b, g, side); })),
+            ("count_positions(1)", Box::new(move |b, g| { g.count_positions(1, b, side); })),
+        ];
+        for (name, q) in queries.iter() {
+            if *name == "count_positions(1)" && idx % 16 != 0 {
+                continue; // (creates one big generator per root move: sampled)
+            }
+            let r = guarded(|| {
+                let mut board = pos.setup_clocks(5, 11);
+                let before = (obs(&board), summaries(&board));
+                let mut gen = MoveGenerator::with_cache_capacity(FRESH_CAP);
+                q(&mut board, &mut gen);
+                let after = (obs(&board), summaries(&board));
+                (before, after)
+            });
+            acc.eval("C04", 1);
+            if let Ok((before, after)) = r {
+                if before != after {
+                    acc.bad("C04", "a query changed the caller's board", &pos, json!({"query": name, "before": before.0, "after": after.0}));
+                }
+            }
+        }
+    }
+
     // ---- C12: the board after every legal move of every oracle state, with its redundant summaries,
     // is logged for TLC (Trace_Records "board": representation invariant, summaries = squares)
     if has("C12") {
